@@ -318,6 +318,13 @@ pub fn parse(l: &Lexed) -> PResult<File> {
                     return c.fail(true, format!("a top-level declaration cannot start with `{}`", t.text));
                 }
             }
+            // nor with a word that is not one of the language's declaration keywords / modifiers
+            if let Some(t) = c.peek() {
+                const STARTS: &[&str] = &["package", "import", "class", "interface", "object", "fun", "val", "var", "typealias", "enum", "data", "sealed", "open", "abstract", "private", "public", "internal", "protected", "inline", "value", "annotation", "const", "expect", "actual", "external", "suspend", "tailrec", "operator", "infix", "override", "lateinit", "final", "companion", "inner", "vararg", "noinline", "crossinline", "reified"];
+                if t.kind == crate::lex::TokKind::Ident && !t.backticked && !STARTS.contains(&t.text.as_str()) {
+                    return c.fail(true, format!("a declaration cannot start with the word `{}`", t.text));
+                }
+            }
             return c.fail(false, "unrecognised top-level construct");
         }
     }
